@@ -2,7 +2,8 @@
 
 For every case: build a real Data (+ optional subset), call the registered exporter, then
   correspondence : what the exporter wrote (astropy Table handed to the writer / raw h5py / raw astropy.io.fits read)
-                   against the extracted model's exported table (names, order, kinds, values, BLANK keyword);
+                   against the extracted model's exported table (names, order, kinds, values, BLANK keyword), for the hand model
+                   (run_case tag 1) and for the exporters TRANSLATED from the source (coq/gen/Gen_exporters.v, run_case tag 2);
   oracle         : load the file back with glue's data factories (load_data auto-detection and the specific factory) and
                    compare names, order and values with the selection computed directly with numpy on the original arrays;
   session        : some loaded files are put in a session saved by reference (include_data=False) and restored.
@@ -10,20 +11,25 @@ For every case: build a real Data (+ optional subset), call the registered expor
 import itertools
 import os
 import time
+import zlib
 
 import numpy as np
 
 from harness.common import enc, Z, kids, to_zs
 
 PROP = 'C19'
-GENERATORS = []
+GENERATORS = ['gen_exporters']
 TRUSTED = [
     'PARTIAL BY NATURE: the theorems cover only glue\'s own logic in the exporters - which components are written and in which order '
     '(main + derived, numerical only for gridded FITS), row selection values[mask] for tables and 1-d HDF5, replacement of the masked-out '
     'pixels by the dtype-kind fill for n-d HDF5 and gridded FITS - and the round trip only modulo an abstract codec (dec (enc t) = normalise t)',
     'the file codecs astropy.table / astropy.io.fits / astropy.io.votable / h5py / pandas.read_csv and numpy are external: '
     'that loading returns what was written is established only by the oracle runs on real files',
-    'hand model coq/C19/Model.v of data_to_astropy_table, hdf5_writer, fits_writer: tied to the code by correspondence on the explored cases',
+    'translator tools/gen/gen_exporters.py (fail-closed ast -> Gallina, regenerated from the current source on every run) and the primitive operations of coq/C19/ExportSem.v '
+    'that the translated data_to_astropy_table / hdf5_writer / fits_writer are written in (fetch = data[cid] / data[cid, view], arr_pick, arr_fill, arr_encode, the link functions): '
+    'these say what numpy indexing and glue\'s Data.__getitem__ / get_kind / main_components / derived_components do, and are tied to the code by the generated_exporters correspondence stream; '
+    'the hand model Model.export is PROVED equal to the translated functions (gen_export_is_model) under wf_data (dtype kinds f, i, S, and U for categorical components; numerical = f or i)',
+    'not modelled in the translated gridded-FITS exporter: the contents of the WCS / BUNIT header and the aliasing of data_header by make_component_header (only which HDU gets BLANK, and its value)',
     'glue data factories (fits_reader, hdf5_reader, astropy_tabular_data*, pandas_read_table / tabular_data, load_data / find_factory) and '
     'session save by reference (LoadLog) are exercised by the oracle only',
 ]
@@ -38,6 +44,10 @@ ASSUMPTIONS = [
     '(astropy makes vector columns of it) and is outside the domain; HDF5 and gridded FITS with 1-d, 2-d and 3-d data; arrays in native and non-native byte order; chains of two formats '
     '(the dataset loaded from the first file is the dataset of the second export)',
     'for gridded FITS, which writes one HDU per component and is read back as one dataset per HDU, "order" is the order of the returned datasets',
+    'derived components: ComponentLink(using=...) with element-wise (2x, a+b) and whole-column link functions (running total, n x deviation from the mean, rank, reversed, shifted, a + reversed b) '
+    'of numeric sources (a derived component computed from text has no kind in glue - Data.get_kind raises - and is outside the domain); text columns with display options of the '
+    'CategoricalComponent switched on (jitter) and explicit category order with unused categories (1-d); the exporters\' components= filter with a non-empty list',
+    'exporting a subset leaves the dataset as it was: the whole dataset exported afterwards (every second pixel-mode subset case) must load back to the original values',
     'masked-out pixels must come back as a blank value of the dtype kind (NaN for floats; 0 or NaN for integers; empty text), selected pixels unchanged',
     'the "matching data factory" is taken to be both load_data\'s auto-detected factory and the format-specific factory; see known findings for the two classes where they differ',
 ]
@@ -63,21 +73,61 @@ def exporters():
 
 
 # ---------------------------------------------------------------------- cases
-# case = {'fmt', 'shape', 'cols': [(name, kind, dtype, values(list, flat))], 'derived': None | (name, source_index), 'mask': None | [bool]}
+# case = {'fmt', 'shape', 'cols': [(name, kind, dtype, values(list, flat))], 'derived': None | (name, source_index), 'mask': None | [bool],
+#         'links': [(name, fn, [source indices])]   derived components made with ComponentLink(..., using=fn): element-wise AND whole-column functions,
+#         'cat': {text column name: [jitter or None, explicit category list or None]}   display options of the CategoricalComponent,
+#         'components': None | [names]   the exporters' components= filter}
+def _flat(fn):
+    """link functions see the component array (n-d for n-d data; 1-d when glue hands them a masked view): work on the flattened array"""
+    def g(*arrs):
+        shape = arrs[0].shape
+        return np.asarray(fn(*[np.asarray(a).ravel() for a in arrs])).reshape(shape)
+    return g
+
+
+# name -> (number of inputs, function on flat arrays).  'double' and 'add2' are element-wise; the others look at the whole column.
+LINK_FNS = {
+    'double': (1, lambda f: f * 2),
+    'cumsum': (1, lambda f: np.nancumsum(f)),                                   # running total (NaN counts as 0)
+    'demean': (1, lambda f: f * f.size - np.nansum(f)),                         # n x (deviation from the column mean): exact in dyadic floats / ints
+    'rank': (1, lambda f: np.argsort(np.argsort(f, kind='stable'), kind='stable')),   # row number in sorted order (NaN last, ties by position)
+    'reversed': (1, lambda f: f[::-1]),
+    'shifted': (1, lambda f: np.roll(f, 1)),
+    'add2': (2, lambda a, b: a + b),
+    'addrev': (2, lambda a, b: a + b[::-1]),
+}
+LINK_CODE = {'double': 1, 'cumsum': 2, 'demean': 3, 'rank': 4, 'reversed': 5, 'shifted': 6, 'add2': 7, 'addrev': 8}
+
+
 def make_data(case):
     from glue.core import Data, DataCollection
+    from glue.core.component import CategoricalComponent
+    from glue.core.component_id import ComponentID
+    from glue.core.component_link import ComponentLink
     from glue.core.subset import MaskSubsetState
     shape = tuple(case['shape'])
     d = Data(label='t')
-    for name, kind, dtype, vals in case['cols']:
+    cat = case.get('cat') or {}
+    for ci, (name, kind, dtype, vals) in enumerate(case['cols']):
         if kind == 2:
             arr = np.array(vals, dtype=dtype).reshape(shape) if vals else np.array([], dtype=dtype).reshape(shape)
+            if name in cat:
+                jit, cats = cat[name]
+                comp = CategoricalComponent(arr, categories=None if cats is None else np.array(cats))
+                if jit:
+                    # display option only: perturbs the numerical codes used to place the categories on an axis, never the labels
+                    np.random.seed(zlib.crc32(name.encode()) % 100000)
+                    comp.jitter(jit)
+                arr = comp
         else:
             arr = np.array([np.nan if v is None else v for v in vals], dtype=dtype).reshape(shape)
         d.add_component(arr, name)
     if case.get('derived'):
         dname, src = case['derived']
         d[dname] = d.id[case['cols'][src][0]] * 2
+    for lname, fn, srcs in case.get('links') or []:
+        nin, f = LINK_FNS[fn]
+        d.add_component_link(ComponentLink([d.id[case['cols'][i][0]] for i in srcs], ComponentID(lname), using=_flat(f)))
     dc = DataCollection([d])
     obj = d
     if case.get('mask') is not None:
@@ -85,6 +135,18 @@ def make_data(case):
         dc.new_subset_group(label='s', subset_state=MaskSubsetState(mask, d.pixel_component_ids))
         obj = d.subsets[0]
     return d, dc, obj
+
+
+def components_arg(case, d):
+    """the exporters' components= argument: None, or the listed ComponentIDs (in the list's own order)"""
+    if case.get('components') is None:
+        return None
+    return [d.id[n] for n in case['components']]
+
+
+def export_kwargs(case, d):
+    c = components_arg(case, d)
+    return {} if c is None else {'components': c}
 
 
 class Tokens(object):
@@ -141,14 +203,17 @@ def model_line(case, d, tk):
     nid = {}
     comps = list(d.main_components) + list(d.derived_components)
     # the model wants the columns in the dataset's own component order with a derived flag
+    listed = None if case.get('components') is None else set(case['components'])
     for cid in d.components:
         if cid in d.coordinate_components:
             continue
         arr = d[cid]
         nid[cid.label] = len(nid)
+        if listed is not None and cid.label not in listed:
+            continue
         cols.append((0, [nid[cid.label], kind_of(arr), 1 if cid in d.derived_components else 0, Z(tk.toks(arr))]))
     blank = 0
-    ints = [np.asarray(d[c]).dtype for c in comps if np.asarray(d[c]).dtype.kind == 'i']
+    ints = [np.asarray(d[c]).dtype for c in comps if np.asarray(d[c]).dtype.kind == 'i' and (listed is None or c.label in listed)]
     if ints:
         if len(set(ints)) > 1:
             return None, nid      # the model has one BLANK parameter per case
@@ -160,8 +225,9 @@ def model_line(case, d, tk):
 def selected_text_non_ascii(case):
     """is there a non-ASCII character in a text cell that the export has to write (selected rows of text columns)?"""
     m = case.get('mask')
+    listed = case.get('components')
     for name, kind, dtype, vals in case['cols']:
-        if kind == 2:
+        if kind == 2 and (listed is None or name in listed):
             for i, v in enumerate(vals):
                 if (m is None or m[i]) and not is_ascii(v):
                     return True
@@ -175,12 +241,22 @@ def blank_ok(case):
 
 
 # ---------------------------------------------------------------------- what the exporter wrote
-def written(case, path, obj, tk, nid):
-    """-> list of (name id, kind, tokens) in file order (dict order for HDF5 has no meaning: sorted by model order later), blanks"""
+def written(case, path, obj, tk, nid, kw=None, tk2=None, res2=None):
+    """-> list of (name id, kind, tokens) in file order (dict order for HDF5 has no meaning: sorted by model order later), blanks.
+    With tk2 / res2: also the same arrays for the comparison with the TRANSLATED exporters: (name id, dtype kind code, ndim, raw tokens,
+    BLANK value of an integer HDU or None) appended to res2"""
     fmt = case['fmt']
+
+    def second(name, arr, blank=None):
+        if tk2 is not None:
+            a = np.asarray(arr)
+            res2.append((nid.get(name, -1), DKIND.get(a.dtype.kind, 99), a.ndim, tk2.toks(a), blank))
+
     if fmt in (0, 1, 2):
         from glue.core.data_exporters.astropy_table import data_to_astropy_table
-        t = data_to_astropy_table(obj)
+        t = data_to_astropy_table(obj, **(kw or {}))
+        for n in t.colnames:
+            second(n, t[n])
         return [(nid.get(n, -1), kind_of(t[n]), tk.toks(t[n])) for n in t.colnames], None, True
     if fmt == 3:
         import h5py
@@ -189,6 +265,7 @@ def written(case, path, obj, tk, nid):
             for n in f.keys():
                 arr = f[n][()]
                 out[n] = (nid.get(n, -1), kind_of(arr), tk.toks(arr))
+                second(n, arr)
         return out, None, False
     from astropy.io import fits
     res, blanks = [], []
@@ -200,7 +277,66 @@ def written(case, path, obj, tk, nid):
             arr = arr.astype(arr.dtype.newbyteorder('='))
             res.append((nid.get(h.name.lower(), -1), kind_of(arr), tk.toks(arr)))
             blanks.append(1 if (arr.dtype.kind == 'i' and 'BLANK' in h.header) else 0)
+            second(h.name.lower(), arr, int(h.header['BLANK']) if (arr.dtype.kind == 'i' and 'BLANK' in h.header) else None)
     return res, blanks, True
+
+
+DKIND = {'f': 0, 'i': 1, 'U': 2, 'S': 3, 'u': 4, 'b': 5, 'O': 6, 'M': 7, 'm': 8, 'c': 9, 'V': 10}     # as tools/gen/gen_exporters.py
+GKIND = {'numerical': 0, 'categorical': 1, 'datetime': 2, 'extended': 3}
+
+
+def model_line2(case, d, tk2, nid):
+    """the case for the TRANSLATED exporters (run_case tag 2): the dataset as component records - glue kind, dtype kind, iinfo.min,
+    derived flag, link function code and SOURCE columns (raw tokens; the model applies the link function itself) - the subset mask,
+    the components= filter, and the table of np.char.encode(.., 'ascii', 'replace') on the text cells"""
+    src_of = {}
+    if case.get('derived'):
+        src_of[case['derived'][0]] = (1, [case['derived'][1]])
+    for lname, fn, srcs in case.get('links') or []:
+        src_of[lname] = (LINK_CODE[fn], list(srcs))
+    names = [c[0] for c in case['cols']]
+    cols = []
+    for cid in d.components:
+        if cid in d.coordinate_components:
+            continue
+        arr = np.asarray(d[cid])
+        k = arr.dtype.kind
+        imin = int(np.iinfo(arr.dtype).min) if k == 'i' else 0
+        if cid.label in src_of:
+            code, srcs = src_of[cid.label]
+            src_toks = [tk2.toks(np.asarray(d[d.id[names[i]]])) for i in srcs]
+            derived = 1
+        else:
+            code, src_toks, derived = 0, [tk2.toks(arr)], 0
+        if (1 if cid in d.derived_components else 0) != derived:
+            raise ValueError('harness: component %s derived flag' % cid.label)
+        cols.append((0, [nid[cid.label], GKIND[d.get_kind(cid)], DKIND.get(k, 99), imin, derived, code, (0, [Z(t) for t in src_toks])]))
+    table = []
+    for sv in list(tk2.strings):
+        table.append((0, [tk2.tok(sv), tk2.tok(ascii_replace(sv))]))
+    m = (0, []) if case.get('mask') is None else (1, [1 if b else 0 for b in case['mask']])
+    comps = (0, []) if case.get('components') is None else (1, [nid[n] for n in case['components']])
+    return enc((2, [case['fmt'], len(case['shape']), m, comps, (0, cols), (0, table), 1]))
+
+
+def compare_gen(case, res, out):
+    """output of the translated exporter (generated Gallina, tag 2) vs what the live exporter wrote"""
+    if res.get('written2') is None or res.get('line2') is None:
+        return None
+    if out[0] == -1:
+        return {'generated_model': 'error %r' % (out,), 'impl': res['written2']}
+    fmt = case['fmt']
+    mt = []
+    for c in kids(out):
+        k = kids(c)
+        blank = None if k[4][0] == 0 else kids(k[4])[0][0]
+        mt.append((k[0][0], k[1][0], k[2][0], to_zs(k[3]), blank if (fmt == 4 and k[1][0] == 1) else None))
+    got = [(a, b, c, list(dd), e) for a, b, c, dd, e in res['written2']]
+    if fmt == 3:
+        mt, got = sorted(mt), sorted(got)
+    if got != mt:
+        return {'generated_model': mt, 'impl': got}
+    return None
 
 
 # ---------------------------------------------------------------------- expectation, straight from the original arrays
@@ -211,8 +347,11 @@ def expected(case, d):
     mask = None if case.get('mask') is None else np.array(case['mask'], dtype=bool).reshape(tuple(case['shape']))
     rows = fmt < 3 or (fmt == 3 and ndim == 1)
     out = []
+    listed = None if case.get('components') is None else set(case['components'])
     for cid in list(d.main_components) + list(d.derived_components):
-        arr = np.asarray(d[cid])
+        if listed is not None and cid.label not in listed:
+            continue
+        arr = np.array(d[cid])            # the ORIGINAL full column, as the dataset itself reports it (a copy, taken BEFORE the export)
         if fmt == 4 and arr.dtype.kind not in 'fi':
             continue
         out.append((cid.label, arr))
@@ -332,10 +471,11 @@ def judge(case, cols, exp, mask, rows):
 
 
 # ---------------------------------------------------------------------- one case
-def run_case_impl(R, case, idx, session=False):
+def run_case_impl(R, case, idx, session=False, again=True):
     """returns dict(model_line, written, oracle problems [(text, key)], nid) ; raises nothing"""
-    res = {'problems': [], 'line': None, 'written': None}
+    res = {'problems': [], 'line': None, 'written': None, 'line2': None, 'written2': None}
     tk = Tokens(case['fmt'])
+    tk2 = Tokens(None)
     try:
         d, dc, obj = make_data(case)
     except Exception as e:
@@ -345,9 +485,16 @@ def run_case_impl(R, case, idx, session=False):
     path = os.path.join(R.scratch, 'c%d_%s.%s' % (idx, FMT_NAME[fmt], FMT_EXT[fmt]))
     line, nid = model_line(case, d, tk)
     res['line'] = line
-    res['nid'] = nid
     try:
-        exporters()[FMT_LABEL[fmt]](path, obj)
+        res['line2'] = model_line2(case, d, tk2, nid)
+    except ValueError as e:
+        if 'multiple of 1/8' not in str(e):
+            raise
+    res['nid'] = nid
+    exp, mask, rows = expected(case, d)
+    try:
+        kw = export_kwargs(case, d)
+        exporters()[FMT_LABEL[fmt]](path, obj, **kw)
     except Exception as e:
         key = None
         if fmt == 1 and isinstance(e, UnicodeEncodeError) and selected_text_non_ascii(case):
@@ -355,10 +502,11 @@ def run_case_impl(R, case, idx, session=False):
         res['problems'].append(('exporter raised %s: %s' % (type(e).__name__, e), key))
         return res
     try:
-        res['written'] = written(case, path, obj, tk, nid)
+        w2 = []
+        res['written'] = written(case, path, obj, tk, nid, kw, tk2, w2)
+        res['written2'] = w2
     except Exception as e:
         res['problems'].append(('could not inspect the written file: %s: %s' % (type(e).__name__, e), None))
-    exp, mask, rows = expected(case, d)
     nsel = None if mask is None else int(mask.sum())
     from glue.core.data_factories import load_data
     auto_cols = None
@@ -386,6 +534,20 @@ def run_case_impl(R, case, idx, session=False):
         pr, key = judge(case, cols, exp, mask, rows)
         if pr:
             res['problems'].append(('%s loader: %s' % (which, pr), key))
+    if mask is not None and not rows and again:
+        # exporting a subset must leave the dataset as it was: the WHOLE dataset exported afterwards still loads back to the original values
+        path2 = os.path.join(R.scratch, 'c%d_whole_%s.%s' % (idx, FMT_NAME[fmt], FMT_EXT[fmt]))
+        try:
+            exporters()[FMT_LABEL[fmt]](path2, d, **kw)
+            pr, key = judge(case, loaded_columns(specific_factory(fmt)(path2)), exp, None, rows)
+        except Exception as e:
+            pr, key = 'raised %s: %s' % (type(e).__name__, str(e)[:200]), None
+        if pr:
+            res['problems'].append(('the whole dataset exported after the subset export: ' + pr, key))
+        try:
+            os.remove(path2)
+        except OSError:
+            pass
     if session and auto_cols:
         try:
             pr = session_by_reference(R, path, idx)
@@ -502,7 +664,7 @@ def rand_case(rng, fmt=None):
         shape = rng.choice([(rng.randrange(1, 7),), (2, 3), (3, 2), (2, 2, 2), (1, 4)])
     n = int(np.prod(shape))
     k = rng.randrange(1, 5)
-    names = rng.sample(NAMES, k + 1)
+    names = rng.sample(NAMES, k + 3)
     int_dtype = rng.choice(['int64', 'int64', 'int32', 'int16', '>i4', '>i2', '>i8'])
     cols = [rand_col(rng, names[i], n, fmt, int_dtype) for i in range(k)]
     if fmt == 4 and all(c[1] == 2 for c in cols):
@@ -519,7 +681,41 @@ def rand_case(rng, fmt=None):
         mask = [True] * n
     else:
         mask = [rng.random() < 0.5 for _ in range(n)]
-    return {'fmt': fmt, 'shape': list(shape), 'cols': cols, 'derived': derived, 'mask': mask}
+    # display options, link functions and the components= filter draw from their own stream
+    rng2 = __import__('random').Random(rng.getrandbits(64))
+    links = []
+    if nums and rng2.random() < 0.55:
+        for j in range(rng2.choice([1, 1, 2])):
+            fn = rng2.choice(['cumsum', 'demean', 'rank', 'reversed', 'shifted', 'cumsum', 'demean', 'double', 'add2', 'addrev'])
+            if LINK_FNS[fn][0] == 2:
+                a = rng2.choice(nums)
+                same = [i for i in nums if cols[i][1] == cols[a][1]]          # both float or both integer
+                srcs = [a, rng2.choice(same)]
+            else:
+                srcs = [rng2.choice(nums)]
+            links.append((names[k + 1 + j], fn, srcs))
+    cat = {}
+    for name, kind, dtype, vals in cols:
+        if kind == 2 and rng2.random() < 0.6:
+            jit = 'uniform' if rng2.random() < 0.6 else None
+            cats = None
+            if len(shape) == 1 and vals and rng2.random() < 0.5:
+                # explicit category order (not sorted) with unused categories
+                cats = sorted(set(vals))
+                rng2.shuffle(cats)
+                for _ in range(rng2.randrange(0, 3)):
+                    cats.insert(rng2.randrange(0, len(cats) + 1), 'un' + rng2.choice(LETTERS) + rng2.choice(LETTERS))
+            cat[name] = [jit, cats]
+    components = None
+    if rng2.random() < 0.3:
+        allnames = [c[0] for c in cols] + ([derived[0]] if derived else []) + [l[0] for l in links]
+        pickn = rng2.randrange(1, len(allnames) + 1)
+        components = rng2.sample(allnames, pickn)
+        if fmt == 4:
+            numeric = [c[0] for c in cols if c[1] != 2] + ([derived[0]] if derived else []) + [l[0] for l in links]
+            if not any(x in numeric for x in components):
+                components.append(rng2.choice(numeric))
+    return {'fmt': fmt, 'shape': list(shape), 'cols': cols, 'derived': derived, 'mask': mask, 'links': links, 'cat': cat, 'components': components}
 
 
 def second_stage_case(first_dataset, fmt, rng):
@@ -566,7 +762,10 @@ def run_chain(R, first, fmt2, idx, sub):
 
 def case_key(case):
     return (case['fmt'], tuple(case['shape']), tuple((c[0], c[1], c[2], tuple(c[3])) for c in case['cols']),
-            tuple(case['derived']) if case['derived'] else None, None if case['mask'] is None else tuple(case['mask']))
+            tuple(case['derived']) if case['derived'] else None, None if case['mask'] is None else tuple(case['mask']),
+            tuple((l[0], l[1], tuple(l[2])) for l in case.get('links') or []),
+            tuple(sorted((k, v[0], None if v[1] is None else tuple(v[1])) for k, v in (case.get('cat') or {}).items())),
+            None if case.get('components') is None else tuple(case['components']))
 
 
 def selection_kind(case):
@@ -578,6 +777,11 @@ def selection_kind(case):
     if all(m):
         return 'full subset'
     return 'proper subset'
+
+
+LINKSETS = [[('kq', 'cumsum', [0]), ('y9', 'demean', [1])],
+            [('kq', 'rank', [0]), ('y9', 'shifted', [1]), ('x', 'addrev', [1, 1])],
+            [('kq', 'reversed', [0]), ('y9', 'cumsum', [1]), ('x', 'add2', [0, 0])]]
 
 
 def exhaustive_cases(R):
@@ -597,6 +801,24 @@ def exhaustive_cases(R):
                 out.append({'fmt': fmt, 'shape': list(shape), 'cols': list(ubase), 'derived': ('b_2', 0), 'mask': list(bits)})
                 if fmt != 4:
                     out.append({'fmt': fmt, 'shape': list(shape), 'cols': [utext], 'derived': None, 'mask': list(bits)})
+            # derived components made with ComponentLink(using=...): whole-column functions (running total, n x deviation from the
+            # mean, rank, reversed, shifted) next to element-wise ones; the text column with jitter on and an explicit category order
+            # with unused categories (1-d); every mask, whole dataset, and two components= filters
+            if shape in ((n,), (1, n)):
+                cat = {'m1': ['uniform', ['xz', 'un1', 'bq', 'pp', 'K d', 'un2'] if len(shape) == 1 else None]}
+                for li, links in enumerate(LINKSETS):
+                    for bits in list(itertools.product([False, True], repeat=n)) + [None]:
+                        if bits is None and fmt < 3 and len(shape) > 1:
+                            continue
+                        if li > 0 and bits is not None and (not any(bits) or all(bits)):
+                            continue
+                        out.append({'fmt': fmt, 'shape': list(shape), 'cols': list(base), 'derived': ('b_2', 0), 'mask': None if bits is None else list(bits),
+                                    'links': list(links), 'cat': cat, 'components': None})
+                bits = [True, False, True, True][:n]
+                out.append({'fmt': fmt, 'shape': list(shape), 'cols': list(base), 'derived': ('b_2', 0), 'mask': bits,
+                            'links': list(LINKSETS[0]), 'cat': cat, 'components': ['kq', 'm1', 'zeta'] if fmt != 4 else ['kq', 'zeta']})
+                out.append({'fmt': fmt, 'shape': list(shape), 'cols': list(base), 'derived': ('b_2', 0), 'mask': bits,
+                            'links': list(LINKSETS[1]), 'cat': cat, 'components': ['b_2', 'alpha', 'y9']})
             if fmt < 3 and len(shape) > 1:
                 continue      # whole n-d datasets are not tables
             out.append({'fmt': fmt, 'shape': list(shape), 'cols': list(base), 'derived': ('b_2', 1), 'mask': None})
@@ -615,17 +837,45 @@ def shrink_case(R, case, pred):
     while changed:
         changed = False
         cands = []
+        links = list(cur.get('links') or [])
+        comps = cur.get('components')
+        if comps is not None:
+            c = dict(cur)
+            c['components'] = None
+            cands.append(c)
         if cur['derived']:
             c = dict(cur)
             c['derived'] = None
+            if comps is not None:
+                c['components'] = [x for x in comps if x != cur['derived'][0]]
             cands.append(c)
+        for li in range(len(links)):
+            c = dict(cur)
+            c['links'] = links[:li] + links[li + 1:]
+            if comps is not None:
+                c['components'] = [x for x in comps if x != links[li][0]]
+            cands.append(c)
+        for name in sorted(cur.get('cat') or {}):
+            c = dict(cur)
+            c['cat'] = dict((k, v) for k, v in cur['cat'].items() if k != name)
+            cands.append(c)
+            if cur['cat'][name][1] is not None:
+                c = dict(cur)
+                c['cat'] = dict(cur['cat'])
+                c['cat'][name] = [cur['cat'][name][0], None]
+                cands.append(c)
         for i in range(len(cur['cols'])):
-            if len(cur['cols']) > 1 and not (cur['derived'] and cur['derived'][1] == i):
+            used = (cur['derived'] and cur['derived'][1] == i) or any(i in l[2] for l in links)
+            if len(cur['cols']) > 1 and not used:
                 c = dict(cur)
                 c['cols'] = cur['cols'][:i] + cur['cols'][i + 1:]
                 if cur['derived']:
                     j = cur['derived'][1]
                     c['derived'] = (cur['derived'][0], j - 1 if j > i else j)
+                c['links'] = [(l[0], l[1], [j - 1 if j > i else j for j in l[2]]) for l in links]
+                c['cat'] = dict((k, v) for k, v in (cur.get('cat') or {}).items() if k != cur['cols'][i][0])
+                if comps is not None:
+                    c['components'] = [x for x in comps if x != cur['cols'][i][0]]
                 cands.append(c)
         if len(cur['shape']) == 1 and cur['shape'][0] > 1:
             n = cur['shape'][0] - 1
@@ -633,8 +883,17 @@ def shrink_case(R, case, pred):
             c['shape'] = [n]
             c['cols'] = [(a, b, dt, v[:n]) for a, b, dt, v in cur['cols']]
             c['mask'] = None if cur['mask'] is None else cur['mask'][:n]
+            if cur.get('cat'):
+                keep = dict((a, set(v[:n])) for a, b, dt, v in cur['cols'])
+                c['cat'] = dict((k, [v[0], None if v[1] is None else [x for x in v[1] if x in keep[k] or x.startswith('un')]]) for k, v in cur['cat'].items())
             cands.append(c)
         for c in cands:
+            if c.get('components') is not None and not c['components']:
+                continue
+            if c['fmt'] == 4:
+                numeric = [x[0] for x in c['cols'] if x[1] != 2] + ([c['derived'][0]] if c['derived'] else []) + [l[0] for l in c.get('links') or []]
+                if c.get('components') is not None and not any(x in numeric for x in c['components']):
+                    continue
             if c['fmt'] == 4 and all(x[1] == 2 for x in c['cols']):
                 continue
             try:
@@ -653,13 +912,16 @@ def evaluate(R, case, idx, session=False):
     if res.get('line') is not None:
         out = R.model([res['line']])[0]
         corr = compare_model(case, res, out)
+    if corr is None and res.get('line2') is not None and getattr(R, 'translation_ok', True):
+        out = R.model([res['line2']])[0]
+        corr = compare_gen(case, res, out)
     return res, corr
 
 
 def run(R):
     import warnings
     warnings.filterwarnings('ignore')
-    R.rule = ('one case = (format, shape, ordered columns with dtype and values, optional derived column, optional mask); exhaustive stream: every mask over a fixed '
+    R.rule = ('one case = (format, shape, ordered columns with dtype and values, derived columns (2x and ComponentLink(using=) with element-wise / whole-column functions), categorical display options, components= filter, optional mask); exhaustive stream: every mask over a fixed '
               'float/int/text table per format and shape plus every column order; random stream: 1-4 columns of random kinds/dtypes/values, random names in '
               'non-alphabetical order, whole / empty / full / proper selections. A case is non-trivial when something is selected and written '
               '(at least one exported component and, for subsets, at least one selected element); distinct = distinct canonical case tuples')
@@ -678,12 +940,15 @@ def run(R):
     nsess = 0
     for idx, (case, stream) in enumerate(cases):
         session = (idx % 6 == 0)
-        res = run_case_impl(R, case, idx, session=session)
+        res = run_case_impl(R, case, idx, session=session, again=(idx % 2 == 0))
         nsess += 1 if res.get('session') else 0
         batch.append((case, stream, res, idx))
         nontriv = (case['mask'] is None or any(case['mask']))
         R.count(case_key(case), nontrivial=nontriv, stream=stream, format=FMT_NAME[case['fmt']], selection=selection_kind(case),
-                ndim=len(case['shape']), columns=len(case['cols']) + (1 if case['derived'] else 0))
+                ndim=len(case['shape']), columns=len(case['cols']) + (1 if case['derived'] else 0) + len(case.get('links') or []),
+                link_functions=','.join(sorted(set(l[1] for l in case.get('links') or []))) or 'none',
+                categorical_options=('none' if not case.get('cat') else '+'.join(sorted(set(('jitter' if v[0] else 'plain') + ('/explicit categories' if v[1] is not None else '') for v in case['cat'].values())))),
+                components_filter='yes' if case.get('components') is not None else 'no')
         if stream == 'random' and len(R.samples) < 4:
             R.sample({'case': case})
     # chains of formats: export with one format, load, export the loaded dataset (or a subset) with another, load
@@ -694,6 +959,8 @@ def run(R):
         first = rand_case(rng, fmt=f1)
         first['mask'] = None
         first['derived'] = None
+        first['links'] = []
+        first['components'] = None
         if f1 < 3:
             n1 = rng.randrange(1, 7)
             first['shape'] = [n1]
@@ -714,12 +981,24 @@ def run(R):
                 chain='%s->%s' % (FMT_NAME[f1], FMT_NAME[f2]), selection=selection_kind(case2))
     lines = [b[2]['line'] for b in batch if b[2].get('line') is not None]
     outs = iter(R.model(lines))
+    lines2 = [b[2]['line2'] for b in batch if b[2].get('line2') is not None]
+    outs2 = iter(R.model(lines2))
+    ngen = {'exhaustive': 0, 'random': 0, 'chain': 0}
     seen_keys = set()
-    nfail = 0
+    nfail = 0       # oracle failures reported (at most 3)
+    ncorr = 0       # correspondence disagreements reported (at most 3; their own budget: they must never crowd out an oracle replay)
+    # when the translation failed, coq/gen/Gen_exporters.v is a stale file: its output says nothing about the current source
+    gen_current = getattr(R, 'translation_ok', True)
     for case, stream, res, idx in batch:
         corr = None
         if res.get('line') is not None:
             corr = compare_model(case, res, next(outs))
+        if res.get('line2') is not None:
+            corr2 = compare_gen(case, res, next(outs2))
+            if res.get('written2') is not None:
+                ngen[stream] += 1
+            if corr is None and gen_current:
+                corr = corr2
         for text, key in res['problems']:
             if key is not None:
                 if key in seen_keys:
@@ -734,14 +1013,18 @@ def run(R):
                 small = shrink_case(R, case, lambda c: any(k is None for _, k in run_case_impl(R, c, 900000 + nfail)['problems']))
                 r2 = run_case_impl(R, small, 900100 + nfail)
                 R.fail('oracle', {'stream': stream, 'case': small}, {'problems': [t for t, k in r2['problems'] if k is None] or [text]}, key=None)
-        if corr is not None and stream == 'chain' and nfail < 3:
-            nfail += 1
+        if corr is not None and stream == 'chain' and ncorr < 3:
+            ncorr += 1
             R.fail('correspondence', {'stream': stream, 'chain': chains[id(case)]['chain'], 'second': case}, corr)
-        elif corr is not None and not any(k is None for _, k in res['problems']) and nfail < 3:
-            nfail += 1
-            small = shrink_case(R, case, lambda c: evaluate(R, c, 900200 + nfail)[1] is not None)
-            r2, c2 = evaluate(R, small, 900300 + nfail)
+        elif corr is not None and not any(k is None for _, k in res['problems']) and ncorr < 3:
+            ncorr += 1
+            small = shrink_case(R, case, lambda c: evaluate(R, c, 900200 + ncorr)[1] is not None)
+            r2, c2 = evaluate(R, small, 900300 + ncorr)
             R.fail('correspondence', {'stream': stream, 'case': small}, c2 or corr)
+    R.stream('generated_exporters', cases=sum(ngen.values()), exhaustive_cases=ngen['exhaustive'], random_cases=ngen['random'], chain_cases=ngen['chain'], exhaustive=False,
+             bound='the same cases as export_roundtrip: the Gallina functions TRANSLATED from data_to_astropy_table / hdf5_writer / fits_writer (coq/gen/Gen_exporters.v, run_case tag 2) are run on '
+                   'the dataset as component records (glue kind, dtype kind, iinfo.min, derived flag, link function and source columns), the subset mask and the components= filter, '
+                   'and compared with what the live exporter wrote (names, order, dtype kinds, ndim, values, BLANK value of integer HDUs)')
     R.stream('export_roundtrip', exhaustive_cases=nexh, random_cases=len(cases) - nexh, chain_cases=nchain, sessions_by_reference=nsess, wall_s=round(time.time() - t0, 1),
              exhaustive=False,
              bound='exhaustive: all masks over %d elements x 5 formats x shapes (1-d; 2-d for HDF5 / gridded FITS) on a float/int/text table with a derived column, '
@@ -764,6 +1047,7 @@ def replay(R, case):
     c = dict(c)
     c['cols'] = [tuple(x) for x in c['cols']]
     c['derived'] = tuple(c['derived']) if c.get('derived') else None
+    c['links'] = [(l[0], l[1], list(l[2])) for l in c.get('links') or []]
     res, corr = evaluate(R, c, 1, session=True)
     new = [t for t, k in res['problems'] if k is None]
     known = [(t, k) for t, k in res['problems'] if k is not None]
